@@ -742,3 +742,24 @@ var modelledAllow = map[string]bool{
 func base64EncodeConcrete(b []value) value {
 	return base64.RawURLEncoding.EncodeToString(goBytes(b))
 }
+
+// ksuid: NewRandomWithTime gives distinct identifiers; the n-th one made on a
+// path is the 20-byte array holding n, and String() prints it as "ksuid-n".
+var ksuidCounter int
+
+func init() {
+	pathResets = append(pathResets, func() { ksuidCounter = 0 })
+	Hooks["github.com/segmentio/ksuid.NewRandomWithTime"] = func(fr *frame, a []value) value {
+		ksuidCounter++
+		arr := make(array, 20)
+		for i := range arr {
+			arr[i] = uint8(0)
+		}
+		arr[19] = uint8(ksuidCounter)
+		return tuple{arr, iface{}}
+	}
+	Hooks["(github.com/segmentio/ksuid.KSUID).String"] = func(fr *frame, a []value) value {
+		arr := a[0].(array)
+		return fmt.Sprintf("ksuid-%d", arr[19].(uint8))
+	}
+}
